@@ -182,7 +182,7 @@ manifest = {
     "hooks": {
         "guard": "cargo feature `verif-hooks` (off by default) on the hooked lance crates",
         "enable": "harness/Cargo.toml declares the hooked crates with features = [\"verif-hooks\"]; ./check builds with it",
-        "baseline_off_cmd": "cd /repo && cargo test --workspace --no-fail-fast --offline",
+        "baseline_off_cmd": "cd /repo && cargo nextest run --workspace --no-fail-fast --tool-config-file pb:/w/lib/nextest.toml --profile pb --test-threads 8 --offline",
         "source_commits": hooks_commits,
         "add_only": True,
     },
